@@ -76,11 +76,13 @@ def blackbox(ctx, rep):
         for ok, op, case, detail in res:
             rep.instance(R, ok=ok, sample=dict(case=case) if len(seen) < 2 and ok else None, nontrivial=(name, case))
             if not ok:
-                key = (op, detail.split(':')[0][:50])
+                import re as _re
+                kinds = _re.findall(r'\[([a-z-]+)\]', detail) or ['state']
+                key = (op, kinds[0])
                 if key in seen:
                     continue
                 seen.add(key)
-                rep.finding(R, f'{rid}/{name}/{op}/{len(seen)}', m.relfile({'qset': 'pytableaux.tools.hybrids', 'linqset': 'pytableaux.tools.linked', 'Predicates': 'pytableaux.lang.collect'}[name]),
+                rep.finding(R, f'{rid}/{name}/{op}/{kinds[0]}', m.relfile({'qset': 'pytableaux.tools.hybrids', 'linqset': 'pytableaux.tools.linked', 'Predicates': 'pytableaux.lang.collect'}[name]),
                             f'{name}.{op}', f'{case}: {detail}')
         rep.floor(rid, f'{name} operation x state cases', len(res), floor)
 
